@@ -74,12 +74,12 @@ theorem has_or_left {x b : Nat} (y : Nat) (h : has x b = true) : has (x ||| y) b
 
 /-! ### the I/O-open invariant -/
 
-/-- the recorded mode says regular file or directory; plain `openat` is a lookup (`O_PATH`) or the
-    exclusive creation of a new file -/
+/-- the recorded mode says regular file or directory; plain `openat` is a lookup
+    (`O_PATH|O_NOFOLLOW`) or the exclusive creation of a new file -/
 def IoSafe : HCall → Prop
   | .reopen _ _ m => isSafeInode m = true
   | .openByHandle _ fl m => has fl O_PATH = true ∨ isSafeInode m = true
-  | .openat _ _ fl _ => has fl O_PATH = true ∨ (has fl O_CREAT = true ∧ has fl O_EXCL = true)
+  | .openat _ _ fl _ => (has fl O_PATH = true ∧ has fl O_NOFOLLOW = true) ∨ (has fl O_CREAT = true ∧ has fl O_EXCL = true)
   | _ => True
 
 -- unification of a lemma about one model function against a goal about another must fail fast
@@ -150,7 +150,7 @@ macro_rules | `(tactic| only_leaf) => `(tactic| exact ioSafe_fileHandleFromFd _)
 
 theorem ioSafe_openFileAndHandle (cfg : Cfg) (d : Fd) (n : Name) : OnlyM IoSafe (openFileAndHandle cfg d n) := by
   unfold openFileAndHandle
-  refine onlyM_bind (onlyM_sys (Or.inl (by decide))) (fun a => ?_)
+  refine onlyM_bind (onlyM_sys (Or.inl ⟨by decide, by decide⟩)) (fun a => ?_)
   only
 macro_rules | `(tactic| only_leaf) => `(tactic| exact ioSafe_openFileAndHandle _ _ _)
 
